@@ -2,6 +2,7 @@ package main
 
 import (
 	"bytes"
+	"os"
 	"fmt"
 )
 
@@ -39,7 +40,27 @@ func emitMulti(c *runCfg, class string, cases []*caseT, schedule []int, free boo
 		}
 	}
 	c.stat(fmt.Sprintf("connections_%d", len(cases)))
+	// C15: "equal what the same client traffic produces on a server that serves it alone" — the same traffic is
+	// served alone by a server of its own (the real one), the two transcripts are compared by the driver
+	if multiAlone && !free {
+		for _, cs := range cases {
+			if hangTotal.Load() >= maxHangs {
+				return
+			}
+			solo := *cs
+			solo.id = cs.id + ".alone"
+			o := runSession(&solo)
+			if o.hang {
+				hangTotal.Add(1)
+			}
+			c.out.line("(sess " + solo.id + " " + solo.class + " " + solo.sxHead() + " " + o.sx(isSSLRequest(solo.raw)) + ")")
+			c.stat("class_" + class + "_alone")
+		}
+	}
 }
+
+// set by the C15 runner: every lock-step multi-connection case is followed by solo runs of its connections
+var multiAlone bool
 
 func (g *gen) schedule(cases []*caseT) []int {
 	var s []int
@@ -91,7 +112,37 @@ func (g *gen) multiCases(id int, cfg cfgT, n int, msgsPer int) []*caseT {
 // ---------------- C15 ----------------
 func init() { runners["C15"] = runC15 }
 
+// a connection that upgrades to TLS next to a client that stalls in the middle of ITS upgrade is served as if alone
+func runC15TLS(c *runCfg, only map[string]bool) {
+	id := 7200000
+	tlsBeside = true
+	defer func() { tlsBeside = false }()
+	for k := 0; k < 3; k++ {
+		cfg := simpleCfg(1024)
+		cfg.tls = true
+		if k == 1 {
+			cfg.auth = "pw"
+			cfg.authPW = []byte("secret")
+		}
+		msgs := [][]byte{startupMsg("user", "u")}
+		if cfg.auth != "none" {
+			msgs = append(msgs, mPassword([]byte("secret")))
+		}
+		msgs = append(msgs, mQuery([]byte("select 1")), mParse(nil, []byte("select 1"), 0), mBind(nil, nil, nil, nil, nil), mExecute(nil, 0), mSync(), mTerminate())
+		emitTLS(c, only, &id, "beside_stalled_tls", cfg, sslRequest(), nil, msgs, "")
+	}
+}
+
 func runC15(c *runCfg) error {
+	multiAlone = true
+	if c.replay != "" {
+		if b, err := os.ReadFile(c.replay); err == nil && bytes.Contains(b, []byte("(tlsobs ")) {
+			runC15TLS(c, tlsOnly(c))
+			return nil
+		}
+	} else {
+		runC15TLS(c, nil)
+	}
 	if c.replay != "" {
 		return replaySessions(c)
 	}
@@ -134,6 +185,34 @@ func runC15(c *runCfg) error {
 			sched = g.schedule(cases)
 		}
 		emitMulti(c, "big_values", cases, sched, false)
+	}
+	// "different row types": one wide table (its declared columns are one Go value for the whole server), every
+	// connection binding its own result formats — equal on the first columns, different on some column far to the
+	// right (beyond 32, 64, 128 columns): each portal is described and sent with ITS formats
+	for r, ncols := range []int{33, 65, 70, 129, 300} {
+		row := opT{kind: "row"}
+		for i := 0; i < ncols; i++ {
+			row.vals = append(row.vals, tv(fmt.Sprintf("v%d", i)))
+		}
+		st := stmtT{id: 90, cols: textCols(ncols), prog: []opT{row, {kind: "complete", tag: []byte("SELECT 1")}}, ret: "nil"}
+		cfg := cfgT{limit: 1 << 16, auth: "none", term: "none", parse: []parseEntry{{query: []byte("wide"), stmts: []stmtT{st}}}}
+		var cases []*caseT
+		for k := 0; k < 3; k++ {
+			rf := make([]int, ncols)
+			if k > 0 {
+				rf[ncols-k] = 1
+			}
+			msgs := [][]byte{mParse(nil, []byte("wide"), 0), mBind(nil, nil, nil, nil, rf), mDescribe('P', nil), mExecute(nil, 0), mSync(),
+				mBind([]byte("again"), nil, nil, nil, rf), mDescribe('P', []byte("again")), mSync()}
+			cs := lockCase(0, "wide_formats", cfg, startupMsg("user", fmt.Sprintf("user%d", k)), msgs)
+			cs.id = fmt.Sprintf("%d.%d", 920000+r, k)
+			cases = append(cases, cs)
+		}
+		sched := g.scheduleLen(cases)
+		if r%2 == 1 {
+			sched = g.schedule(cases)
+		}
+		emitMulti(c, "wide_formats", cases, sched, false)
 	}
 	// statements declared with WithParameters(ParseParameters(query)), the same query text prepared on several
 	// connections, some of them with parameter types prespecified in the Parse message: what one connection
